@@ -38,9 +38,20 @@ P('C12',
   not_decided=['gf_vect_mul_{sse,avx} and GFNI kernels that consume the tables (assembly)'])
 
 
+def merged(pid):
+    """PROPS[pid] plus the per-family fragments (assumptions / not_decided lists are concatenated)"""
+    import registry
+    info = dict(PROPS.get(pid, {}))
+    for frag in registry.PROP_TEXT.get(pid, []):
+        for k in ('assumptions', 'not_decided'):
+            if k in frag:
+                info[k] = list(info.get(k, [])) + list(frag[k])
+    return info
+
+
 def write_evidence(pid, tier, seed, hs, results, violations, known_hits, wall):
     import registry
-    info = PROPS.get(pid, {})
+    info = merged(pid)
     enforced_anywhere = {}
     for h in registry.HARNESSES:
         if h.enforce and h.kind == 'proof':
